@@ -3,7 +3,7 @@
  *           rankings, n = 2..6 [7, and 8 without the map pass, in thorough]: curve = definition, monotone,
  *           (0,0)->(1,1), AUC = exact integer Mann-Whitney count / (n+ n-), unchanged by 4 strictly
  *           increasing maps, 1-AUC under negation; PR: recall non-decreasing ending at 1, AP in [0,1]
- *   part 1  ALL object permutations of ALL (truth, ranking) pairs, n <= 5 [6]: AUC unchanged
+ *   part 1  ALL object permutations of ALL (truth, ranking) pairs, n <= 5 [thorough: n = 6 on every 15th ranking]: AUC unchanged
  *   part 2  indexed n in {20, 200}: 8 truth patterns x 3 score distributions x 8 permutations
  *   part 3  R2/MSE/RMSE/MAE/BIAS against long-double formulas, lengths {2..6,10,200}, 3 scales, 2 offsets,
  *           5 prediction kinds, ALL subsets of missing-coded truths for n <= 6, patterns above
@@ -156,7 +156,9 @@ static void part_roc_perm(void) {
   int nmax = vx_thorough() ? 6 : 5;
   int n = 2 + vx_choose("n-2", nmax - 1);
   int tv = vx_choose("truth", 1 << n);
-  long r = vx_choose("ranking", (int)vg_fact(n)), p = vx_choose("permutation", (int)vg_fact(n));
+  /* n = 6: ALL 720 permutations of every truth vector, on every 15th ranking (48 of 720); the full truth x ranking
+   * product for n = 6..8 is judged against the exact count in part 0, which already implies permutation invariance */
+  long r = n <= 5 ? vx_choose("ranking", (int)vg_fact(n)) : 15L * vx_choose("ranking/15", 48) + 7, p = vx_choose("permutation", (int)vg_fact(n));
   int np = __builtin_popcount((unsigned)tv); vx_require(np >= 1 && np <= n - 1);
   double v[8], t[8], s[8], t2[8], s2[8]; int perm[8], pi[8];
   sorted_scores(2, n, v); vx_require(distinct(v, n));
@@ -422,7 +424,7 @@ static void body(void) {
 
 int main(int argc, char **argv) {
   vg_seed(getenv("VERIF_SEED") ? atol(getenv("VERIF_SEED")) : 0);
-  vx_describe("alphabet", "0: ALL truth vectors in {0,1}^n with both classes x ALL n! rankings of n distinct scores, n=2..6 [thorough ..8; the 4 monotone maps and negation for n<=7]; 1: ALL object permutations of all (truth, ranking) pairs n<=5 [6]; 2: n in {20,200} [+57,128] x 8 truth patterns x 3 score distributions (uniform, 1e6 x^3, exp(20x)) x 4 [12] value sets x 8 permutations; 3: lengths {2,3,4,5,6,10,200} x scales {1e-6,1,1e6} x offsets {0,1e3*scale} x 5 prediction kinds x 2 [6] value sets x ALL subsets of missing-coded truths (n<=6) or 4 patterns <= 20%%; 4: PLSRegressionStatistics (ny 1..3, nlv 1..3[4]), MLRRegressionStatistics (ny 1..4), PLSDiscriminantAnalysisStatistics (all truth vectors n=4..6, ny 1..2, nlv 1..2, 0..2 missing truths, with/without curve tensors)");
+  vx_describe("alphabet", "0: ALL truth vectors in {0,1}^n with both classes x ALL n! rankings of n distinct scores, n=2..6 [thorough ..8; the 4 monotone maps and negation for n<=7]; 1: ALL object permutations of all (truth, ranking) pairs n<=5 [n=6: all permutations x all truths x 48 of 720 rankings]; 2: n in {20,200} [+57,128] x 8 truth patterns x 3 score distributions (uniform, 1e6 x^3, exp(20x)) x 4 [12] value sets x 8 permutations; 3: lengths {2,3,4,5,6,10,200} x scales {1e-6,1,1e6} x offsets {0,1e3*scale} x 5 prediction kinds x 2 [6] value sets x ALL subsets of missing-coded truths (n<=6) or 4 patterns <= 20%%; 4: PLSRegressionStatistics (ny 1..3, nlv 1..3[4]), MLRRegressionStatistics (ny 1..4), PLSDiscriminantAnalysisStatistics (all truth vectors n=4..6, ny 1..2, nlv 1..2, 0..2 missing truths, with/without curve tensors)");
   vx_describe("oracle", "exact integer Mann-Whitney count / (n+ n-) = AUC (tol 16 eps (n+2)); ROC points = (fp/n-, tp/n+) of the objects ranked above, monotone, (0,0)->(1,1); AUC equal under x^3, exp, 2x+5, atan and object permutations, 1-AUC under negation; PR points = (tp/n+, tp/(tp+fp)), recall non-decreasing ending at 1, area = trapezoid from (0,1), in [0,1]; R2/MSE/RMSE/MAE/BIAS = long-double formulas over non-missing truths with forward error allowances, RMSE^2=MSE, MAE<=RMSE, R2<=1, perfect prediction => (1,0,0,0,0); statistic tables = the same definitions per (latent variable, response) on column ny*lv+j");
   vx_set_shard_depth(3);
   vx_expect_outcomes(2000);
